@@ -47,6 +47,7 @@ class ExprPolicy:
         self.len_pins = []                  # [(compiled uid regex, [lengths])]
         self.opt_pins = []                  # [(compiled uid regex, [0|1,...])]
         self.import_callee = False
+        self.super_callee = False           # callee may be `super` (witnesses are printed inside a derived-class constructor)
         self.str_keys = False               # object-literal keys may be quoted strings (PropName::Str)
         self.private_names = False          # member properties may be private names (`o.#x`)
         self.free_strings = None
@@ -173,6 +174,8 @@ class ExprPolicy:
                 return ['Str']
             return ['Str', 'Num', 'Null']
         if enum == 'Callee':
+            if getattr(self, 'super_callee', False):
+                return ['Expr', 'Super']
             return ['Expr', 'Import'] if self.import_callee else ['Expr']
         if enum == 'MemberProp':
             return ['Ident', 'Computed', 'PrivateName'] if self.private_names else ['Ident', 'Computed']
